@@ -229,7 +229,8 @@ Section Legacy.
       let '(attr_rev, unrev, preds) := rc in
       _ <- compare_referents R P ;;
       _ <- check_revealed_values R P ;;
-      _ <- check_restrictions R P cx (unrev ++ attr_rev) preds ;;
+      (* HashMap collect over a chain: the later map wins a referent both have; fix: the revealed entries come last *)
+      _ <- check_restrictions R P cx (if f_restr_revealed_first cfg then attr_rev ++ unrev else unrev ++ attr_rev) preds ;;
       regmap <- build_regmap cx ;;
       subs <- loop_ids R P cx regmap (p_ids P) 0 ;;
       (* ProofVerifier::verify checks the WHOLE proof list against the registered sub-proof requests *)
